@@ -9,6 +9,7 @@ from chartgen import section
 from common import rng
 from props import _notes
 from props.c06 import parse_logged
+from common import exc_name  # noqa: E402
 
 # junk: lines no recogniser of the section may accept
 JUNK_COMMON = ["", "   ", "garbage", "12345", "0 = ", "= N 0 0", "0 = X 1 2", "  [ExpertSingle]", "  {", "0 = N 0", "0 = E",
@@ -177,29 +178,60 @@ def record(r, cid, sec, tokens, copy=False, given=None, indent="  ", direct=None
     rec = {"id": cid, "props": ["C14"], "kind": "dispatch", "sec": sec, "lines": list(tokens), "raised": "", "got": [[], [], []],
            "warn": [], "bogus": 0, "clean": "", "dirty": "", "body": body, "ticks": ticks, "indent": indent}
     if kind != "chart" or ck != "chart":
-        rec["raised"] = type(val if kind != "chart" else cval).__name__
+        rec["raised"] = exc_name(val if kind != "chart" else cval)
         return rec, text
     rec["got"] = observed(sec, val, ticks, tokens)
     rec["clean"], rec["dirty"] = sec_digest(sec, cval), sec_digest(sec, val)
-    # Reports (records of level >= WARNING on a chartparse logger, or warnings) are attributed in order: a report
-    # names a line if it contains the line verbatim, as it stands in the file, in double quotes.  Reports that
-    # name no body line at all (e.g. a summary) are ignored; a second report for the same unparsable line counts
-    # as index 0 (never a valid index); a report naming a CLAIMED line is counted in `bogus`.
+    # Reports (records of level >= WARNING on a chartparse logger, or warnings) are attributed in order.  A report NAMES a
+    # line if it contains the line's text - as it stands in the file, or stripped, or escaped the way repr() / ascii() write
+    # it; how a report quotes the line is nobody's business (round 10: a tree that formats the line with {!r} is as good as the
+    # pinned one).  A second report for the unparsable line just reported counts as index 0 (never a valid index); a report
+    # that names a CLAIMED line - in double or single quotes, or as its repr - is counted in `bogus`.  Reports that name
+    # no body line at all are set aside: if NOTHING was named by text and there is exactly one such report per unparsable
+    # line (a tree that reports "line #7" instead of the text), they are attributed in order; otherwise they are ignored
+    # (a summary, a hint).
     junk_idx = [k for k, tok in enumerate(tokens, start=1) if tok == "junk"]
     # (a line handed over with its terminator is named with it: the terminator is not part of what the line says)
     reports = [msg.replace("\n", "").replace("\\n", "") for name, level, msg in logs if level >= logging.WARNING and name.startswith("chartparse")]
-    valid_texts = {'"' + indent + ln + '"' for ln, tok in zip(body, tokens) if tok != "junk"}
-    junk_texts = {'"' + indent + body[k - 1] + '"' for k in junk_idx}
+
+    def forms(ln):
+        raw = indent + ln
+        if not raw.strip():
+            return set()
+        out = {raw, raw.strip()}
+        for x in (raw, raw.strip()):
+            out.add(repr(x)[1:-1])
+            out.add(ascii(x)[1:-1])
+        return {x for x in out if x.strip()}
+
+    def names(msg, ln):
+        f = forms(ln)
+        return (not f) or any(x in msg for x in f)      # a blank line cannot be named by its text
+
+    def quoted(ln):
+        raw = indent + ln
+        return {'"' + raw + '"', "'" + raw + "'", repr(raw), '"' + raw.strip() + '"', "'" + raw.strip() + "'"} if raw.strip() else set()
+
+    valid_q = set().union(*[quoted(ln) for ln, tok in zip(body, tokens) if tok != "junk"]) if body else set()
+    junk_q = set().union(*[quoted(body[k - 1]) for k in junk_idx]) if junk_idx else set()
     j = 0
     bogus = 0
-    for msg in reports:
-        if j < len(junk_idx) and ('"' + indent + body[junk_idx[j] - 1] + '"') in msg:
-            rec["warn"].append(junk_idx[j])
-            j += 1
-        elif j > 0 and ('"' + indent + body[junk_idx[j - 1] - 1] + '"') in msg:
-            rec["warn"].append(0)
-        elif any(t in msg for t in valid_texts - junk_texts):
-            bogus += 1
+    all_forms = set().union(*[forms(ln) for ln in body]) if body else set()
+    text_free = bool(reports) and not any(x in msg for msg in reports for x in all_forms)
+    if text_free:
+        # no report quotes any body line (e.g. "line #7 is unparsable"): one report per unparsable line, in order, is all
+        # that can be asked; a surplus or a shortfall shows as a length mismatch
+        rec["warn"] = list(junk_idx[:len(reports)]) + [0] * max(0, len(reports) - len(junk_idx))
+        rec["reports_without_text"] = True
+    else:
+        for msg in reports:
+            if j < len(junk_idx) and names(msg, body[junk_idx[j] - 1]):
+                rec["warn"].append(junk_idx[j])
+                j += 1
+            elif j > 0 and forms(body[junk_idx[j - 1] - 1]) and names(msg, body[junk_idx[j - 1] - 1]):
+                rec["warn"].append(0)
+            elif any(t in msg for t in valid_q - junk_q):
+                bogus += 1
     rec["bogus"] = bogus
     return rec, text
 
@@ -318,7 +350,7 @@ def run(ctx):
     ctx.assumptions += [
         "the [Song] section is not dispatched by kinds (unmatched lines there are ignored silently) and is covered by C10",
         "pairwise disjointness of the shipped recognisers over all strings is decided by the language models (Lang.tla)",
-        "a report 'names' a line if it is a record of level >= WARNING containing the line verbatim in double quotes",
+        "a report 'names' a line if it is a record of level >= WARNING (or a warning) containing the line's text, however quoted or escaped; one text-free report per unparsable line is attributed in order",
     ]
 
 
